@@ -47,12 +47,12 @@ def run(cx):
     parse = cx.func(REL, "_ColorConfColorDescr._parse_init_str", "R14h")
     parse_mod = cx.func(REL, "_ColorConfColorDescr._parse_modifiers", "R14h")
 
-    _resolve_table(cx, resolve, d_init)
-    _first_wins(cx, repo, c_init, add)
-    _pending(cx, add)
-    _cache_and_sync(cx, repo, add)
-    _lookup(cx, get_color, conf)
-    _grammar(cx, descr, parse, parse_mod, repo)
+    cx.guard(_resolve_table, cx, resolve, d_init)
+    cx.guard(_first_wins, cx, repo, c_init, add)
+    cx.guard(_pending, cx, add)
+    cx.guard(_cache_and_sync, cx, repo, add)
+    cx.guard(_lookup, cx, get_color, conf)
+    cx.guard(_grammar, cx, descr, parse, parse_mod, repo)
 
 
 # -------------------------------------------------------------------------------------- R14a / c / f
